@@ -1,4 +1,280 @@
-/-! Line-protocol operations for the Modes glue model (filled in by the Modes model; `none` = unknown op). -/
+import SphericalVerif.Model.Modes
+/-! Line-protocol operations for the Modes glue model (`modes <tokens…>` lines of the driver).
+
+    Descriptors:  shape  = `-` (scalar / no leading axes) or `3x2x…`
+                  trunc  = `n` | `sum` | `max` | `min` | `c<k>`
+                  Modes  = `M:<s>:<ell_max>:<lead>:<trunc>:<n>`
+                  array  = `A:<shape>:<z|nz>`           (operands)   `A:<shape>:<c|r>` (constructor input)
+    Ops:  ctor P=<a,b,…|-> S=<int|n> EMIN=<int|n> EMAX=<int|n> T=<trunc> IN=<Modes|array>
+          stored <s> <ell_min> <ell_max>           index <Modes> <ell> <m>        trunc <Modes> <L>
+          view <Modes>                             uf <name> <a;b;…> <out|n> <kw 0|1>
+          op <bin|inp> <add|sub|mul|div> <a> <b>   un <pos|neg|abs> <a>
+          meth <add|subtract|multiply|divide> <Modes> <other> [trunc]
+          meth <conjugate|conjugate_inplace|real|imag|norm> <Modes>
+          conjrow <method|inplace|ufunc> <s> <L>   terms <L1> <L2> <Lfg>          copy <route> <nested 0|1>
+    `none` = unknown op. -/
 namespace ModesOps
-def step (_toks : List String) : Option String := none
+open Model.Modes
+
+def parseShape (s : String) : Option (List Nat) :=
+  if s == "-" then some [] else (s.splitOn "x").mapM (·.toNat?)
+
+def showShape (l : List Nat) : String :=
+  if l.isEmpty then "-" else String.intercalate "x" (l.map toString)
+
+def parseOptInt (s : String) : Option (Option Int) :=
+  if s == "n" then some none else s.toInt?.map some
+
+def parseTrunc (s : String) : Option (Option Trunc) :=
+  match s with
+  | "n" => some none
+  | "sum" => some (some .sum)
+  | "max" => some (some .max)
+  | "min" => some (some .min)
+  | _ => if s.startsWith "c" then (s.drop 1).toString.toInt?.map (fun k => some (.const k)) else none
+
+def showTrunc : Option Trunc → String
+  | none => "n"
+  | some .sum => "sum"
+  | some .max => "max"
+  | some .min => "min"
+  | some (.const k) => "c" ++ toString k
+
+def parseModes (s : String) : Option Obj :=
+  match s.splitOn ":" with
+  | ["M", sp, L, lead, t, n] => do
+    let sp ← sp.toInt?
+    let L ← L.toInt?
+    let lead ← parseShape lead
+    let t ← parseTrunc t
+    let n ← n.toNat?
+    pure ⟨⟨sp, L, t⟩, lead, n⟩
+  | _ => none
+
+def parseOperand (s : String) : Option Operand :=
+  match s.splitOn ":" with
+  | ["A", sh, z] => do
+    let sh ← parseShape sh
+    pure (.arr sh (z == "nz"))
+  | _ => (parseModes s).map .modes
+
+def parseInArr (s : String) : Option InArr :=
+  match s.splitOn ":" with
+  | ["A", sh, d] => do
+    let sh ← parseShape sh
+    pure ⟨none, sh, d == "r"⟩
+  | _ => (parseModes s).map fun o => ⟨some o.md, o.shape, false⟩
+
+def showMeta (m : Meta) : String := s!"{m.spin},{m.ellMax},{showTrunc m.trunc}"
+
+def showObj (o : Obj) : String :=
+  s!"modes s={o.md.spin} L={o.md.ellMax} lead={showShape o.lead} n={o.n} t={showTrunc o.md.trunc}"
+
+def showErr : Err → String
+  | .valueError => "valueerror"
+  | .notImplemented => "notimpl"
+  | .notImplementedError => "notimplerror"
+  | .indexError => "indexerror"
+  | .attributeError => "attrerror"
+  | .unsafeWrite => "unsafe"
+
+def showOutcome : Outcome → String
+  | .modes o none => showObj o
+  | .modes o (some m) => showObj o ++ " om=" ++ showMeta m
+  | .plain dt sh =>
+    let d := match dt with
+      | .bool => "b"
+      | .float => "f"
+      | .complex => "c"
+    s!"ndarray:{d}:{showShape sh}"
+  | .err e => showErr e
+  | .notDispatched => "notdispatched"
+
+def kv (key tok : String) : Option String :=
+  if tok.startsWith (key ++ "=") then some (tok.drop (key.length + 1)).toString else none
+
+def parseUFunc (s : String) : UFunc :=
+  match s with
+  | "not_equal" => .notEqual
+  | "equal" => .equal
+  | "logical_and" => .logicalAnd
+  | "logical_or" => .logicalOr
+  | "isfinite" => .isfinite
+  | "isinf" => .isinf
+  | "isnan" => .isnan
+  | "positive" => .positive
+  | "negative" => .negative
+  | "add" => .add
+  | "subtract" => .subtract
+  | "multiply" => .multiply
+  | "divide" => .divide
+  | "true_divide" => .trueDivide
+  | "conj" => .conj
+  | "conjugate" => .conjugate
+  | "absolute" => .absolute
+  | n => .other n
+
+def parseBinOp (s : String) : Option BinOp :=
+  match s with
+  | "add" => some .add
+  | "sub" => some .sub
+  | "mul" => some .mul
+  | "div" => some .div
+  | _ => none
+
+/-- tagged entries for the layout / conjugation correspondences -/
+inductive Tag where
+  | zero
+  | at (p : Nat) (neg conj : Bool)
+  deriving DecidableEq
+
+def Tag.neg : Tag → Tag
+  | .zero => .zero
+  | .at p n c => .at p (!n) c
+
+def Tag.conj : Tag → Tag
+  | .zero => .zero
+  | .at p n c => .at p n (!c)
+
+def Tag.show : Tag → String
+  | .zero => "z"
+  | .at p n c => (if n then "-" else "+") ++ toString p ++ (if c then "*" else "")
+
+def heap0 (nested : Bool) : Heap × PyObj :=
+  ({ dicts := fun i => if i = 0 then
+        [("spin_weight", .int 1), ("ell_max", .int 2), ("multiplication_truncator", .fn "max")]
+          ++ (if nested then [("note", .ref 0)] else [])
+      else [],
+     vals := fun i => if i = 0 then [7, 8] else [],
+     bufs := fun i => if i = 0 then fun p => p else fun _ => 0,
+     nextDict := 1, nextVal := 1, nextBuf := 1 }, ⟨.modes, 0, 0⟩)
+
+def parseRoute (s : String) : Option Route :=
+  match s with
+  | "copy_method" => some .copyMethod
+  | "copy_copy" => some .copyCopy
+  | "deepcopy" => some .deepCopy
+  | "np_array" => some .npArray
+  | _ => if s.startsWith "pickle" then (s.drop 6).toString.toNat?.map .pickle else none
+
+def showVal (h : Heap) : Val → String
+  | .int i => toString i
+  | .fn n => n
+  | .none => "None"
+  | .ref id => "[" ++ String.intercalate "," ((h.vals id).map toString) ++ "]"
+
+def step (toks : List String) : Option String :=
+  match toks with
+  | ["ctor", p, s, emin, emax, t, inp] => do
+    let p ← kv "P" p
+    let pos ← if p == "-" then some [] else (p.splitOn ",").mapM (·.toInt?)
+    let s ← (kv "S" s).bind parseOptInt
+    let emin ← (kv "EMIN" emin).bind parseOptInt
+    let emax ← (kv "EMAX" emax).bind parseOptInt
+    let t ← (kv "T" t).bind parseTrunc
+    let inp ← (kv "IN" inp).bind parseInArr
+    pure (showOutcome (ctor { pos := pos, kwSpin := s, kwEllMin := emin, kwEllMax := emax, kwTrunc := t, input := inp }))
+  | ["stored", s, emin, emax] => do
+    let s ← s.toInt?
+    let emin ← emin.toInt?
+    let emax ← emax.toInt?
+    let row := stored (α := Option Nat) s emin emax (fun p => some p) none
+    pure (String.intercalate " " ((List.range (storedLen emin emax).toNat).map fun p =>
+      match row p with
+      | none => "z"
+      | some q => toString q))
+  | ["index", m, ell, mm] => do
+    let o ← parseModes m
+    let ell ← ell.toInt?
+    let mm ← mm.toInt?
+    pure (match index o ell mm with
+      | .ok i => s!"ok {i}"
+      | .error e => showErr e)
+  | ["trunc", m, L] => do
+    let o ← parseModes m
+    let L ← L.toInt?
+    let r := truncateEll o L
+    pure s!"{showObj r.result} same={if r.same then 1 else 0} orig={showMeta r.original.md},{r.original.n}"
+  | ["view", m] => do
+    let o ← parseModes m
+    pure (match viewLead o with
+      | some v => showObj v
+      | none => "scalar")
+  | ["uf", name, args, out, kw] => do
+    let args ← (args.splitOn ";").mapM parseOperand
+    let out ← if out == "n" then some none else (parseOperand out).map some
+    pure (showOutcome (arrayUfunc { uf := parseUFunc name, args := args, out := out, kwargs := kw == "1" }))
+  | ["op", form, name, a, b] => do
+    let op ← parseBinOp name
+    let a ← parseOperand a
+    let b ← parseOperand b
+    match form with
+    | "bin" => pure (showOutcome (binop op a b))
+    | "inp" => pure (showOutcome (inplaceOp op a b))
+    | _ => none
+  | ["un", name, a] => do
+    let a ← parseOperand a
+    let uf ← match name with
+      | "pos" => some UFunc.positive
+      | "neg" => some UFunc.negative
+      | "abs" => some UFunc.absolute
+      | _ => none
+    pure (showOutcome (unop uf a))
+  | ["meth", name, m] => do
+    let o ← parseModes m
+    match name with
+    | "conjugate" => pure (showOutcome (methodConjugate o false).1 ++ " same=0")
+    | "conjugate_inplace" =>
+      let r := methodConjugate o true
+      pure (showOutcome r.1 ++ (if r.2 then " same=1" else " same=0"))
+    | "real" | "imag" => pure (showOutcome (methodRealImag o))
+    | "norm" => pure (showOutcome (methodNorm o))
+    | _ => none
+  | "meth" :: name :: m :: other :: rest => do
+    let o ← parseModes m
+    let other ← parseOperand other
+    let t ← match rest with
+      | [] => some none
+      | [t] => parseTrunc t
+      | _ => none
+    match name with
+    | "add" => pure (showOutcome (methodAdd o other false))
+    | "subtract" => pure (showOutcome (methodAdd o other true))
+    | "multiply" => pure (showOutcome (methodMultiply o other t))
+    | "divide" => pure (showOutcome (methodDivide o other))
+    | _ => none
+  | ["conjrow", form, s, L] => do
+    let s ← s.toInt?
+    let L ← L.toInt?
+    let src : Nat → Tag := fun p => .at p false false
+    let n := (Gen.Ysize 0 L).toNat
+    let row ← match form with
+      | "method" => some (stored (-s) 0 L (conjLoopMethod Tag.neg Tag.conj s L false src (fun _ => .zero)) Tag.zero)
+      | "inplace" => some (conjLoopMethod Tag.neg Tag.conj s L true src src)
+      | "ufunc" => some (conjRow Tag.neg Tag.conj s L src (fun _ => .zero) Tag.zero)
+      | _ => none
+    pure (String.intercalate " " ((List.range n).map fun p => (row p).show))
+  | ["terms", L1, L2, Lfg] => do
+    let L1 ← L1.toInt?
+    let L2 ← L2.toInt?
+    let Lfg ← Lfg.toInt?
+    let ts := terms L1 L2 Lfg
+    -- number of terms, then per output index the number of contributions
+    let n := (Gen.Ysize 0 Lfg).toNat
+    let counts := accumulate (· + ·) (fun _ => 1) ts (fun _ => (0 : Nat))
+    pure (toString ts.length ++ " | " ++ String.intercalate " " ((List.range n).map fun p => toString (counts p)))
+  | ["copy", route, nested] => do
+    let r ← parseRoute route
+    let (h, o) := heap0 (nested == "1")
+    let (h', c) := copyRoute r h o
+    let cls := match c.cls with
+      | .modes => "Modes"
+      | .ndarray => "ndarray"
+    let keys := (h'.dicts c.dict).map fun e => e.1 ++ "=" ++ showVal h' e.2
+    let nestedShared := match h'.lookup c.dict "note", h'.lookup o.dict "note" with
+      | some a, some b => if a = b then "shared" else "fresh"
+      | _, _ => "none"
+    pure s!"cls={cls} sharesdata={if c.buf = o.buf then 1 else 0} samedict={if c.dict = o.dict then 1 else 0} nested={nestedShared} {String.intercalate ";" keys}"
+  | _ => none
+
 end ModesOps
